@@ -209,7 +209,10 @@ class Tiny:
                 if type(l) is type(r):
                     return _from_py(l + r)
                 raise TinyRaise("TypeError")
-            return l + r if isinstance(e.op, ast.Add) else (l - r if isinstance(e.op, ast.Sub) else l * r)
+            try:
+                return l + r if isinstance(e.op, ast.Add) else (l - r if isinstance(e.op, ast.Sub) else l * r)
+            except TypeError:
+                raise AnalysisError(f"tiny: arithmetic on {l!r}, {r!r}")
         if isinstance(e, ast.Compare) and len(e.ops) >= 1:
             vals = [self.ev(e.left)] + [self.ev(c) for c in e.comparators]
             for op, a, b in zip(e.ops, vals, vals[1:]):
@@ -289,6 +292,12 @@ class Tiny:
                     recv = self.ev(e.func.value)
                 except AnalysisError:
                     recv = None
+                if self.model_strings and isinstance(recv, int) and not isinstance(recv, bool) and e.func.attr in ("to_bytes", "bit_length") and not e.keywords:
+                    ia = [_to_py(self.ev(a)) for a in e.args]
+                    try:
+                        return _from_py(getattr(recv, e.func.attr)(*ia))
+                    except (OverflowError, TypeError, ValueError) as ex:
+                        raise TinyRaise(type(ex).__name__)
                 if isinstance(recv, int) and not isinstance(recv, bool) and e.func.attr == "to_bytes":
                     return ("octets", recv)
                 if isinstance(recv, list) and e.func.attr in ("tobytes", "tolist") and not e.args:
